@@ -219,3 +219,54 @@ def translate(impl_dir):
     return ("Definition gen_pid_exists : pe_prog :=\n  %s.\n\n"
             "Definition gen_iter_prologue : list pstmt :=\n  %s.\n\n"
             "Definition gen_iter_body : body :=\n  %s.\n" % (pe, prologue, body))
+
+
+# ------------------------------------------------------------------ _psposix.pid_exists
+XCLS = {"ProcessLookupError": "XProcessLookupError", "OverflowError": "XOverflowError",
+        "PermissionError": "XPermissionError", "OSError": "XOSError"}
+
+
+def _ret_bool(stmts, where):
+    if len(stmts) != 1 or not isinstance(stmts[0], ast.Return) or _u(stmts[0]) not in ("return True", "return False"):
+        raise TranslateError("_psposix.pid_exists: %s is not a single 'return True/False': %s"
+                             % (where, "; ".join(_u(s) for s in stmts)[:200]))
+    return "true" if _u(stmts[0]) == "return True" else "false"
+
+
+def tr_posix_pid_exists(tree):
+    f = _func(tree, "pid_exists")
+    if _u(f.args) != "pid":
+        raise TranslateError("_psposix.pid_exists: unexpected signature (%s)" % _u(f.args))
+    body = _strip_doc(f.body)
+    zero = "None"
+    if body and isinstance(body[0], ast.If) and _u(body[0].test) == "pid == 0" and not body[0].orelse:
+        zero = "(Some %s)" % _ret_bool(body[0].body, "the pid == 0 branch")
+        body = body[1:]
+    if not body or not isinstance(body[0], ast.Try) or body[0].finalbody or [_u(s) for s in body[0].body] != ["os.kill(pid, 0)"]:
+        raise TranslateError("_psposix.pid_exists: 'try: os.kill(pid, 0)' not found where expected")
+    tr = body[0]
+    if tr.orelse and len(body) == 1:
+        els = _ret_bool(tr.orelse, "the else branch")
+    elif not tr.orelse and len(body) == 2:
+        els = _ret_bool(body[1:], "the statement after the try")
+    else:
+        raise TranslateError("_psposix.pid_exists: statements after the try/except/else not understood")
+    hs = []
+    for h in tr.handlers:
+        if h.name is not None or h.type is None:
+            raise TranslateError("_psposix.pid_exists: handler not understood: " + _u(h)[:200])
+        names = h.type.elts if isinstance(h.type, ast.Tuple) else [h.type]
+        if not all(isinstance(n, ast.Name) and n.id in XCLS for n in names):
+            raise TranslateError("_psposix.pid_exists: exception class not understood: " + _u(h.type))
+        hs.append("([%s], %s)" % ("; ".join(XCLS[n.id] for n in names), _ret_bool(h.body, "a handler")))
+    return "{| px_zero := %s;\n     px_handlers := [%s];\n     px_else := %s |}" % (zero, "; ".join(hs), els)
+
+
+_translate_init = translate
+
+
+def translate(impl_dir):
+    txt = _translate_init(impl_dir)
+    with open(os.path.join(impl_dir, "psutil", "_psposix.py"), encoding="utf-8") as f:
+        tree = ast.parse(f.read())
+    return txt + "\nDefinition gen_posix_pid_exists : px_prog :=\n  %s.\n" % tr_posix_pid_exists(tree)
